@@ -1,5 +1,5 @@
 """Property -> rule composition.  Each function decides the statically decidable clauses of one property."""
-from .rules import kdefects, numeric, seed, typestate, ownership, clifford, circuit, stabilizer, adjoint, manifold, gellmann, twins, backend, masks
+from .rules import kdefects, numeric, seed, typestate, ownership, clifford, circuit, stabilizer, adjoint, manifold, gellmann, twins, backend, masks, axes
 
 M = 'numqi.'
 DECISION_C05 = ['numqi.entangle.ppt.is_ppt', 'numqi.entangle.ppt.is_generalized_ppt',
@@ -103,6 +103,18 @@ def c02(proj, rep, tier):
                'placed in a field the projection keeps, theta reaches the map) are decided')
     rep.assume('Stiefel so-exp/so-cayley at rank==dim parametrise SO(d)/SU(d) (as the option name says), so the bound used '
                'there is min(dim St(d,r), dim SO/SU(d))')
+
+
+def c12(proj, rep, tier):
+    n = axes.x1(proj, rep)
+    rep.floor('X1 typed return sites of the channel conversions / applications', n, 9)
+    n = axes.kraus_tp(proj, rep)
+    rep.floor('TP built-in noise channels', n, 3)
+    backend.b1(proj, rep, ['numqi.channel._internal', 'numqi.utils'], expect_match=B1_CHANNEL)
+    n = numeric.f1(proj, rep, ['numqi.utils'])
+    rep.floor('F1 log sites of the entropy / relative-entropy formulas', n, 10)
+    rep.assume('contractivity (data processing), fidelity range / symmetry and entropy bounds are theorems about values: not decided; '
+               'choi_op_to_bloch_map (double Gell-Mann transform with computed reshapes) is not typed')
 
 
 def c15(proj, rep, tier):
@@ -226,7 +238,7 @@ def c20(proj, rep, tier):
 
 
 def dev(proj, rep, tier):
-    print(masks.ms1(proj, rep, MS1_FUNCS))
+    print(axes.kraus_tp(proj, rep))
 
 
-PROPS = {'C01': c01, 'C02': c02, 'C15': c15, 'C16': c16, 'C03': c03, 'C04': c04, 'C05': c05, 'C07': c07, 'C19': c19, 'C10': c10, 'C11': c11, 'C18': c18, 'C20': c20, 'DEV': dev}
+PROPS = {'C01': c01, 'C02': c02, 'C12': c12, 'C15': c15, 'C16': c16, 'C03': c03, 'C04': c04, 'C05': c05, 'C07': c07, 'C19': c19, 'C10': c10, 'C11': c11, 'C18': c18, 'C20': c20, 'DEV': dev}
